@@ -198,6 +198,23 @@ def run(ctx):
 
     R4 = "C13.R4"
     run.rule(R4, "key rotation: init_secure_api reply updates the handler's shared key", floor=2)
+    uk = ctx.fn(H + "update_owner_api_shared_key")
+    if uk:
+        # the helper really stores the new key: `*key.lock() = new_key` (write through the guard of the key parameter)
+        held = False
+        for b, bb in enumerate(uk.bbs):
+            if bb["cleanup"]:
+                continue
+            for st in bb["s"]:
+                if st["k"] == "a" and st["d"][1] == ["*"] and st["r"]["k"] == "use":
+                    src = vf.producers(uk, st["r"]["o"])
+                    dst = vf.producers(uk, {"c": [st["d"][0], []]})
+                    from ..locks import LOCK_FNS
+                    if any(x[0] == "arg" and x[1] == 3 for x in src) and any(x[0] in ("call", "mutcall") and x[1] in LOCK_FNS for x in dst | vf.origins(uk, {"c": [st["d"][0], []]})):
+                        held = True
+        run.instance(R4, {"fn": "update_owner_api_shared_key", "obligation": "the new key parameter is written through the lock guard of the key parameter"}, held=held)
+        if not held:
+            run.finding(Finding(R4, uk.id, "update_owner_api_shared_key does not store the new key", site=uk.loc()))
     if fn:
         upd = cfg.find_calls(fn, H + "update_owner_api_shared_key")
         if not upd:
